@@ -48,10 +48,10 @@ Hs == {1, 2}
 Sim == SimLen > 0
 Pick(S, nominal) == IF ~Sim \/ S = {} THEN S ELSE (S \cap nominal) \cup {RandomElement(S)}
 Pick3(S) == IF ~Sim \/ S = {} THEN S ELSE {RandomElement(S), RandomElement(S), RandomElement(S)}
-Rarely(n) == ~Sim \/ RandomElement(1..n) = 1          \* thins an action out of the simulated walks
+Rarely(n) == IF Sim THEN RandomElement(1..n) = 1 ELSE TRUE          \* thins an action out of the simulated walks
 ImgSet == {[off |-> iseq[k].off, pg |-> iseq[k].pg, rem |-> iseq[k].rem, len |-> iseq[k].len, snap |-> iseq[k].snap, bad |-> iseq[k].bad] : k \in DOMAIN iseq}
 LivePages == UNION {live[h].pages : h \in {k \in Hs : live[k].n = 1}}
-Running == SimLen = 0 \/ Len(hist) < SimLen
+Running == IF SimLen = 0 THEN TRUE ELSE Len(hist) < SimLen
 Step(entry) == hist' = Append(hist, entry)
 Bump(f) == cnt' = [cnt EXCEPT ![f] = @ + 1]
 
@@ -100,13 +100,13 @@ Patch == \E k \in Pick(DOMAIN iseq, {}), f \in Pick(PatchFields, {}) :
   /\ Bump("p")
   /\ UNCHANGED <<phase, fend, snapno, free, live, last>>
 
-AdopterStart == /\ Running /\ phase = "master" /\ cnt.a < MaxAdopters /\ (iseq # <<>> \/ Rarely(4))
+AdopterStart == /\ Running /\ phase = "master" /\ cnt.a < MaxAdopters /\ (IF iseq = <<>> THEN Rarely(4) ELSE TRUE)
                 /\ phase' = "adopter" /\ free' = {} /\ live' = [h \in Hs |-> NoH]
                 /\ Step(<<"adopter">>)
                 /\ Bump("a")
                 /\ UNCHANGED <<iseq, fend, snapno, last>>
 
-AdopterEnd == /\ Running /\ phase = "adopter" /\ (iseq = <<>> \/ Rarely(8))
+AdopterEnd == /\ Running /\ phase = "adopter" /\ (IF iseq = <<>> THEN TRUE ELSE Rarely(8))
               /\ phase' = "master" /\ free' = {} /\ live' = [h \in Hs |-> NoH]
               /\ Step(<<"end">>)
               /\ UNCHANGED <<iseq, fend, snapno, cnt, last>>
@@ -115,7 +115,7 @@ AdopterEnd == /\ Running /\ phase = "adopter" /\ (iseq = <<>> \/ Rarely(8))
 \* hwloc_shmem_topology_adopt with the arguments of image k and one deviation
 Adopt == \E h \in Hs, k \in (DOMAIN iseq \cup {0}), dev \in Pick(AdoptDevs, {"none"}), punch \in Pick(PunchModes, {1}) :
   /\ Running /\ phase = "adopter" /\ live[h].n = 0
-  /\ ~Sim \/ iseq # <<>> \/ cnt.f < 2
+  /\ IF Sim /\ iseq = <<>> THEN cnt.f < 2 ELSE TRUE
   /\ (k = 0) <=> (iseq = <<>>)                 \* k = 0: nothing was ever written
   /\ LET i == IF k = 0 THEN [off |-> 0, pg |-> SlotPg(0), rem |-> 0, len |-> LP, slot |-> 0] ELSE iseq[k]
          doff == CASE dev = "doff+" -> 1 [] dev = "doff-" -> -1 [] dev = "eof" -> EOFPAGES [] OTHER -> 0
@@ -178,6 +178,7 @@ StateView == <<phase, iseq, fend, snapno, free, live, cnt, last>>
 \* an adopted topology always stems from an image that was designated exactly: its pages are the image's pages
 AdoptedExact == \A h \in Hs : live[h].n = 1 =>
                    /\ live[h].img \in DOMAIN iseq
+                   /\ iseq[live[h].img].bad = {}            \* and intact (images only change while no adopter runs)
                    /\ live[h].pages = PagesOf(iseq[live[h].img].pg, iseq[live[h].img].rem, iseq[live[h].img].len, PG)
 \* address ranges in use are exclusive
 RangesExclusive == /\ \A h \in Hs : live[h].n = 1 => live[h].pages \cap free = {}
